@@ -26,6 +26,8 @@ CONF = {
                    'and C10_stream (DESIGN 5) for every stream/ISN/history under the per-step window hypothesis: no panic, every element at its '
                    'absolute offset equals the slice of S, Skip=-1 only as first element of a stream without SYN, Skip=0 when no limit fires; '
                    'C10_window_necessary shows misbehaviour outside W. The model is the REPAIRED assembly.go (late-SYN fix of agent-c10, lastSeen '
-                   'reset and limit loop of agent-c11); the correspondence run ties it to the code. Not proved, only tested by the oracle: a '
-                   'Skip never covers bytes that had been received (minimality), completed streams lost nothing.',
+                   'reset and limit loop of agent-c11); the correspondence run ties it to the code. Also proved (received ranges threaded as a ghost of the '
+                   'invariant: every received byte at or beyond the delivery point is held in the queue; block-aware queue order): '
+                   'C10_skip_covers_nothing_received (a Skip meets no received range) and C10_flushall_delivers_all (a completed stream '
+                   'lost nothing it received, given FIN/RST only on data ending at the end of S; FlushAll leaves no stream, loops terminate).',
 }
